@@ -9,7 +9,7 @@ RULE = ('windows built by construction: MACH_vmfault (END result zero / non-zero
         'real-fault records of the three decoded kinds and the undecoded Purgeable kind in any order; '
         'DBG_DYLD_TIMING_LAUNCH_EXECUTABLE with 0..8 nested map_a / shared_cache_a / unmap_a / map_b records, pooled '
         '(equal, adjacent) load addresses; PERF_Event with arbitrary 14-bit flag words and every subset/order of '
-        '{THD_Data, STK_UHdr, STK_UData x k}, also the NONE-qualified (window-less) variant. Unrelated same-thread '
+        '{THD_Data, STK_UHdr, STK_UData x k} (stack words include null frames), also the NONE-qualified (window-less) variant. Unrelated same-thread '
         'records and relevant-kind records of OTHER threads are mixed in. Oracle: fields of the emitted object '
         'against a plain reading of the statement. Non-trivial: >= 2 candidate records, a flag/record mismatch, or an '
         'undecoded nested kind; distinct by window digest.')
